@@ -174,6 +174,18 @@ claim("C05", "exploration",
       "The fake socket is a blocking socket with timeout semantics; Win32 streams are not exercised.",
       "DESIGN.md §4 C05")
 
+claim("C18", "exploration",
+      "model-based history testing (Hypothesis) with malformed-request fuzzing: the real registry server objects run "
+      "their real receive/dispatch/command code over a scripted socket and a virtual clock against a reference map and "
+      "notification log",
+      "Histories of register / unregister / query / clock advance from several hosts, interleaved with a grammar of "
+      "malformed requests (incl. non-text command, silent TCP client), are executed one loop pass per step; the oracle "
+      "is a reference membership map with pruning, the per-(name, address) notification sequences, loop survival and "
+      "non-interference with other hosts' entries.",
+      "Scripted sockets stand in for the network (the TCP client behaviours are modelled); ties in refresh time may come "
+      "in any order.",
+      "DESIGN.md §4 C18")
+
 NOT_YET = "check not built yet in this revision (see DESIGN.md §8 build order)"
 
 
